@@ -13,11 +13,13 @@
    PARTIAL CORRECTNESS: there is no C09_terminates.  Whether the real loop
    reaches an empty front set depends on the heuristic; every theorem below is
    conditional on a run (`replay ... = Some s`, and `F s = []` where completion
-   matters).  The statement that is not proved is kept as C09_terminates_full. *)
+   matters).  The statement that is not proved is kept as C09_terminates_full;
+   what is provable (bounds) and why no more (C09_guards_do_not_bound_rounds) is in map/SabreBound.v. *)
 From Coq Require Import List Arith Permutation Lia.
 Import ListNotations.
 From BQ Require Import lib.Perm lib.PermThm lib.Trace map.Graph map.GraphThm map.GraphSubThm map.GraphCtorThm
-  map.Sabre map.SabreDag map.SabreThm map.SabreSem map.SabreCoupled map.Placement map.PlacementThm map.Pam map.PamThm map.PamSem.
+  map.Sabre map.SabreDag map.SabreThm map.SabreSem map.SabreCoupled map.Placement map.PlacementThm map.Pam map.PamThm map.PamSem
+  map.PamPipe map.PamPipeThm map.PlacementSpecThm map.SabreStrict map.SabreBound.
 
 (* ---- lib/Perm ------------------------------------------------------------------ *)
 (* _apply_swap on a permutation pi of 0..n-1 is the value-level transposition of the
@@ -221,6 +223,101 @@ Theorem C09_mappings_same_unitary : forall g c nq,
 Proof. exact pipeline_sem. Qed.
 
 
+(* ---- the placement passes and ApplyPlacement on their own ------------------------------------------ *)
+(* TrivialPlacementPass: range(n), accepted only if it passes the connectivity test; the mappings
+   and the model are not touched. *)
+Theorem C09_trivial_placement : forall n d d',
+  trivial_placement n d = Some d' ->
+  placement d' = idperm n /\ placement_connected (mach d) (idperm n) = Some true /\
+  imap d' = imap d /\ fmap d' = fmap d /\ mach d' = mach d.
+Proof. exact trivial_placement_spec. Qed.
+
+(* GreedyPlacementPass: n machine qudits in strictly ascending order (sorted(placement)), containing
+   the first qudit of maximal degree, accepted by the connectivity test - and on an undirected graph
+   connected BY CONSTRUCTION (C09_greedy_grows_connected), independently of that test. *)
+Theorem C09_greedy_placement : forall n d d',
+  greedy_placement n d = Some d' -> 1 <= n ->
+  length (placement d') = n /\ Sorted.StronglySorted lt (placement d') /\
+  placement_connected (mach d) (placement d') = Some true /\
+  In (argmax (map (@length nat) (mach d))) (placement d') /\
+  (sym (mach d) -> connected_set (mach d) (placement d')) /\
+  imap d' = imap d /\ fmap d' = fmap d /\ mach d' = mach d.
+Proof. exact greedy_placement_spec. Qed.
+
+(* the greedy loop (any tie-breaking, any scores): every qudit it adds is adjacent to one already
+   chosen, so the chosen set stays connected and only grows *)
+Theorem C09_greedy_grows_connected : forall g, sym g -> forall fuel n pl nbs r,
+  pl <> [] -> connected_set g pl -> (forall x, In x nbs -> exists y, In y pl /\ In x (nbrs g y)) ->
+  greedy_loop fuel g n pl nbs = Some r ->
+  connected_set g r /\ (forall x, In x pl -> In x r).
+Proof. exact greedy_loop_connected. Qed.
+
+(* StaticPlacementPass: an accepted search result maps every edge of the circuit's coupling graph onto
+   a machine edge; a rejected one changes nothing.  Injectivity is the search's guarantee (oracle,
+   re-checked each run), connectivity is NOT checked by this pass (layout / routing re-check it). *)
+Theorem C09_static_placement : forall n ledges found d d',
+  static_placement n ledges found d = Some d' ->
+  (d' = d \/
+   (placement d' = found /\ length found = n /\
+    (forall e, In e ledges -> fst e < n /\ snd e < n /\ nth (fst e) found 0 < length (mach d) /\
+                              In (nth (snd e) found 0) (nbrs (mach d) (nth (fst e) found 0))))) /\
+  imap d' = imap d /\ fmap d' = fmap d /\ mach d' = mach d.
+Proof. exact static_placement_spec. Qed.
+
+(* Trivial / Greedy placement on a well-formed undirected loop-free machine: the published placement
+   is a duplicate-free, in-range, CONNECTED (textbook definition) set of n machine qudits. *)
+Theorem C09_checked_placement_connected : forall p n d d',
+  (p = PTrivial \/ p = PGreedy) -> 1 <= n ->
+  wf (mach d) -> sym (mach d) -> loopfree (mach d) ->
+  run_placer p n d = Some d' ->
+  length (placement d') = n /\ NoDup (placement d') /\ (forall q, In q (placement d') -> q < length (mach d)) /\
+  connected_set (mach d) (placement d') /\ mach d' = mach d /\ imap d' = imap d /\ fmap d' = fmap d.
+Proof. exact checked_placement_connected. Qed.
+
+(* ApplyPlacement: both mappings are composed with the placement (logical l now starts on
+   placement[initial_mapping[l]] and ends on placement[final_mapping[l]]), stay injective - into the
+   machine -, the circuit's locations go through the placement, the placement becomes the identity
+   of the machine. *)
+Theorem C09_apply_placement : forall m o d o' d',
+  apply_placement o d = Some (o', d') ->
+  injinto m (placement d) -> injinto (length (placement d)) (imap d) -> injinto (length (placement d)) (fmap d) ->
+  o' = map (relabel (placement d)) o /\
+  imap d' = compose (placement d) (imap d) /\ fmap d' = compose (placement d) (fmap d) /\
+  placement d' = idperm (length (mach d)) /\ mach d' = mach d /\
+  injinto m (imap d') /\ injinto m (fmap d') /\
+  (forall l, l < length (imap d) -> nth l (imap d') 0 = nth (nth l (imap d) 0) (placement d) 0) /\
+  (forall l, l < length (fmap d) -> nth l (fmap d') 0 = nth (nth l (fmap d) 0) (placement d) 0).
+Proof. exact apply_placement_full. Qed.
+
+(* machine 0-1-2-3, 2-4: greedy starts at qudit 2 (degree 3) and returns {1,2,4}; the trivial placement
+   is {0,1,2}; a static answer [4;2;3] for the path 0-1-2 is accepted, [4;3;2] is rejected (4-3 is not
+   an edge); ApplyPlacement composes both mappings with the placement [1;2;3]. *)
+Definition ex_gm : adj := mk_adj 5 [(0,1);(1,2);(2,3);(2,4)].
+Example C09_placement_nonvacuous :
+  wf ex_gm /\ sym ex_gm /\ loopfree ex_gm /\
+  let d := mkpd [0;1;2] [0;1;2] [0;1;2] ex_gm in
+  (exists d', run_placer PGreedy 3 d = Some d' /\ placement d' = [1;2;4]) /\
+  (exists d', run_placer PTrivial 3 d = Some d' /\ placement d' = [0;1;2]) /\
+  (exists d', static_placement 3 [(0,1);(1,2)] [4;2;3] d = Some d' /\ placement d' = [4;2;3]) /\
+  static_placement 3 [(0,1);(1,2)] [4;3;2] d = Some d /\
+  trivial_placement 3 (mkpd [0;1;2] [0;1;2] [0;1;2] (mk_adj 4 [(0,1);(1,3);(2,3)])) = None /\
+  (exists o' d', apply_placement [OG 0 [2;0]; OS 0 1] (mkpd [1;2;3] [0;1;2] [1;0;2] ex_gm) = Some (o', d')
+     /\ o' = [OG 0 [3;1]; OS 1 2] /\ imap d' = [1;2;3] /\ fmap d' = [2;1;3] /\ placement d' = [0;1;2;3;4]) /\
+  injinto 5 [1;2;3] /\ injinto 3 [1;0;2].
+Proof.
+  assert (Hok : edges_ok 5 [(0,1);(1,2);(2,3);(2,4)]) by (intros e [<-|[<-|[<-|[<-|[]]]]]; simpl; lia).
+  destruct (mk_adj_props 5 _ Hok) as (H1 & H2 & _ & H4).
+  split; [exact H1|]. split; [exact H2|].
+  split; [apply H4; intros e [<-|[<-|[<-|[<-|[]]]]]; simpl; lia|].
+  cbv zeta.
+  split; [eexists; split; [vm_compute; reflexivity|reflexivity]|].
+  split; [eexists; split; [vm_compute; reflexivity|reflexivity]|].
+  split; [eexists; split; [vm_compute; reflexivity|reflexivity]|].
+  split; [vm_compute; reflexivity|].
+  split; [vm_compute; reflexivity|].
+  split; [eexists; eexists; split; [vm_compute; reflexivity|repeat split; reflexivity]|].
+  split; apply injintob_injinto; reflexivity. Qed.
+
 (* ---- permutation-aware mapping (PAM) ------------------------------------------------------------ *)
 (* map/Pam.v: an executed block is replaced by a pre-synthesised triple (pre, circ, post) that
    _get_best_perm may choose only if perm_data has an entry for the coupling graph induced on
@@ -317,6 +414,85 @@ Example C09_pam_nonvacuous :
 Proof. split; [apply wf_circb_ok; reflexivity|].
   eexists. split; [vm_compute; reflexivity|]. repeat split; reflexivity. Qed.
 
+(* ---- the PAM clause at the level of PassData: (initial_mapping, final_mapping) ------------------- *)
+(* At every moment of a PAM routing run pi is the initial pi pushed through the wire maps of the
+   mapped circuit so far (pwalk: a block moves wire L[j] to L[inverse(pre)[j]] and then L[j] to
+   L[post[j]], a swap transposes, a barrier does nothing), and every element of the output is
+   well-formed (okp: duplicate-free in-range location, pre and post permutations of the block's
+   size). *)
+Theorem C09_pam_pi_is_walk : forall cg c bars tbl nq pi0 tr s,
+  wf_circ c nq -> wfperm nq pi0 ->
+  (forall n, n < length c -> nth n bars false = false -> Sorted.StronglySorted lt (gloc (opat c n))) ->
+  preplay cg c bars tbl true (pinit c nq pi0) tr = Some s ->
+  ppi s = pwalk pi0 (pout s) /\ (forall x, In x (pout s) -> okp bars nq x).
+Proof. exact pam_pi_walk. Qed.
+
+(* map/PamPipe.v: [SetModelPass; placement; PAMLayoutPass?; PAMRoutingPass; ApplyPlacement].
+   Same bookkeeping as C09_mappings: initial_mapping = P0 o piL, final_mapping = P0 o piL o piR,
+   both injective into the machine, P0 o piL a connected set of machine qudits, the output = the
+   routed PAM circuit with every location (blocks, swaps, barriers) mapped through P0 o piL. *)
+Theorem C09_pam_mappings : forall g c bars tbl nq,
+  wf_circ c nq -> 1 <= nq -> forall p ltr rtr o d,
+  pam_pipeline g c bars tbl nq p ltr rtr = Some (o, d) ->
+  exists P0 piL piR cgR s,
+    length P0 = nq /\ wfperm nq piL /\ wfperm nq piR /\
+    let P1 := compose P0 piL in
+    injinto (length g) P1 /\ length P1 = nq /\
+    placement_connected g P1 = Some true /\
+    connectivity (mkpd P1 (idperm nq) (idperm nq) g) = Some cgR /\
+    preplay cgR c bars tbl true (pinit c nq (idperm nq)) rtr = Some s /\ pF s = [] /\ ppi s = piR /\
+    o = map (prelabel P1) (pout s) /\
+    imap d = P1 /\ fmap d = compose P1 piR /\ placement d = idperm (length g) /\
+    injinto (length g) (imap d) /\ injinto (length g) (fmap d).
+Proof. exact pam_pipeline_mappings. Qed.
+
+(* The semantic clause of the property for the permutation-aware pipeline, on the MACHINE: under the
+   triple contract (blk = meaning of a block, see C09_pam_same_unitary) and the same laws stated on
+   the machine's qudits, the final circuit equals the input with logical qudit l entering on
+   physical qudit initial_mapping[l], followed by the left-over wire permutations (ptail: the pre /
+   post permutations of the blocks and the swaps); and pushing initial_mapping through the wire maps
+   of the final circuit gives exactly final_mapping. *)
+Theorem C09_pam_mappings_same_unitary : forall g c bars tbl nq,
+  wf_circ c nq -> 1 <= nq ->
+  (forall n, n < length c -> nth n bars false = false -> Sorted.StronglySorted lt (gloc (opat c n))) ->
+  forall (M : Type) (mul : M -> M -> M) (one : M) (den : nat -> list nat -> M) (sw : nat -> nat -> M)
+         (pmove : list nat -> list nat -> M),
+  (forall x y z, mul x (mul y z) = mul (mul x y) z) -> (forall x, mul one x = x) -> (forall x, mul x one = x) ->
+  (forall n1 L1 n2 L2, (forall q, In q L1 -> q < length g) -> (forall q, In q L2 -> q < length g) ->
+     (forall q, In q L1 -> ~ In q L2) -> mul (den n1 L1) (den n2 L2) = mul (den n2 L2) (den n1 L1)) ->
+  (forall a b n L, a < length g -> b < length g -> (forall q, In q L -> q < length g) ->
+     mul (sw a b) (den n L) = mul (den n (map (tr a b) L)) (sw a b)) ->
+  (forall L r n L', NoDup L -> (forall q, In q L -> q < length g) -> wfperm (length L) r ->
+     (forall q, In q L' -> q < length g) ->
+     mul (pmove L r) (den n L') = mul (den n (map (fmove L (inverse r)) L')) (pmove L r)) ->
+  (forall n, nth n bars false = true -> forall L, den n L = one) ->
+  forall p ltr rtr o d,
+  pam_pipeline g c bars tbl nq p ltr rtr = Some (o, d) ->
+  prodP M mul one den sw pmove o =
+    mul (prodV M mul one den (imap d) (prog c)) (ptail M mul one sw pmove o)
+  /\ fmap d = pwalk (imap d) o.
+Proof. exact pam_pipeline_sem. Qed.
+
+(* a complete PAM pipeline: machine 0-1-3-2 (4 qudits), GreedyPlacementPass picks {0,1,3}; block 0
+   leaves its first two qudits exchanged, a swap, block 1 exchanges them again.
+   initial_mapping [0;1;3], final_mapping [1;0;3] = initial_mapping pushed through the output. *)
+Definition ex_pmach : adj := [[1];[0;3];[3];[1;2]].
+Definition ex_ptbl2 : ptable :=
+  [[mkpt [(0,1);(1,2)] [0;1;2] [0;1;2]; mkpt [(0,1);(1,2)] [0;1;2] [1;0;2]];
+   [mkpt [(0,1)] [0;1] [0;1]; mkpt [(0,1)] [0;1] [1;0]];
+   [mkpt [] [0] [0]]].
+Example C09_pam_mappings_nonvacuous :
+  (forall n, n < length ex_pc -> nth n [false;false;false] false = false ->
+     Sorted.StronglySorted lt (gloc (opat ex_pc n))) /\
+  exists o d, pam_pipeline ex_pmach ex_pc [false;false;false] ex_ptbl2 3 PGreedy None
+                [PExec 0 [0;1;2] [1;0;2]; PSwap (0,1); PExec 1 [0;1] [1;0]; PExec 2 [0] [0]] = Some (o, d)
+    /\ imap d = [0;1;3] /\ fmap d = [1;0;3] /\ placement d = [0;1;2;3]
+    /\ map ploc o = [[0;1;3]; [0;1]; [0;1]; [0]] /\ pwalk (imap d) o = fmap d.
+Proof. split.
+  - intros n Hn _. destruct n as [|[|[|n]]]; simpl in Hn; try lia; simpl;
+      repeat (constructor; try lia); repeat constructor; lia.
+  - eexists. eexists. split; [vm_compute; reflexivity|]. repeat split; reflexivity. Qed.
+
 (* ---- not proved: termination ---------------------------------------------------------------- *)
 (* From every reachable state of a routing run on a connected graph some finite sequence of
    enabled steps empties the front set.  (Even this would not say that the float heuristic of
@@ -325,6 +501,44 @@ Definition C09_terminates_full : Prop := forall cg c nq pi0 tr s,
   wf_circ c nq -> wfperm nq pi0 -> Graph.is_fully_connected cg = Some true ->
   replay cg c true true (init c nq true pi0) tr = Some s ->
   exists tr' s', replay cg c true true s tr' = Some s' /\ F s' = [].
+
+(* ---- what IS provable about termination (map/SabreBound.v) ------------------------------------------ *)
+(* every operation is executed at most once: at most |c| Exec steps in any run *)
+Theorem C09_progress_bounds : forall cg c nq pi0 tr s,
+  wf_circ c nq -> wfperm nq pi0 ->
+  replay cg c true true (init c nq true pi0) tr = Some s ->
+  NoDup (executed tr) /\ (forall n, In n (executed tr) -> n < length c) /\ length (executed tr) <= length c.
+Proof. exact exec_bound. Qed.
+
+(* a run that obeys the control-flow guards of the loop (SabreStrict.replay_strict: swap only when
+   nothing is executable and at most 5.|cg| leading swaps, backtrack only after more) never
+   accumulates more than 5.|cg|+1 leading swaps: at most 5.|cg|+1 consecutive Swap steps *)
+Theorem C09_strict_lead_bound : forall cg c fwd modify tr s s',
+  length (lead s) <= 5 * length cg + 1 ->
+  replay_strict cg c fwd modify s tr = Some s' -> length (lead s') <= 5 * length cg + 1.
+Proof. exact strict_lead_bound. Qed.
+
+(* ... but the guards do NOT bound the number of Swap*-Backtrack rounds: on the line 0-1-2-3 with one
+   gate on (0,3), for every k there is a run of 22.k steps, every one enabled and obeying the guards,
+   that executes nothing and ends in the initial state.  Hence no termination theorem can be proved
+   for the transition system: whether the real loop leaves such a round is decided by the swaps the
+   float heuristic picks and by _uphill_swaps after the backtrack (Uphill steps are unconstrained
+   edges in the model), i.e. by the oracles. *)
+Theorem C09_guards_do_not_bound_rounds : forall k,
+  let tr := concat (repeat nt_round k) in
+  replay_strict nt_cg nt_c true true nt_init tr = Some nt_init /\
+  length tr = 22 * k /\ executed tr = [] /\ F nt_init <> [].
+Proof. exact strict_runs_unbounded. Qed.
+
+(* the bound of C09_strict_lead_bound is attained, and the 22nd consecutive swap is refused *)
+Example C09_strict_nonvacuous :
+  (exists s, replay_strict nt_cg nt_c true true nt_init (repeat (Swap (1,2)) 21) = Some s
+             /\ length (lead s) = 5 * length nt_cg + 1 /\ F s = [0]) /\
+  replay_strict nt_cg nt_c true true nt_init (repeat (Swap (1,2)) 22) = None /\
+  replay nt_cg nt_c true true nt_init (repeat (Swap (1,2)) 22) <> None /\
+  replay_strict nt_cg nt_c true true nt_init [Swap (1,2); Backtrack] = None.
+Proof. split; [eexists; split; [vm_compute; reflexivity|split; reflexivity]|].
+  split; [vm_compute; reflexivity|]. split; [vm_compute; discriminate|vm_compute; reflexivity]. Qed.
 
 (* ---- non-vacuity ------------------------------------------------------------------------------ *)
 (* a run on the line 0-1-2 with a swap that is backtracked, another swap, and the gate *)
